@@ -159,6 +159,14 @@ def mpVarOfStacked (dim : Nat) (st : List K) (flag : Bool) : Option (List K) :=
         some (st.take p ++ st.drop (p + dim ^ 2))           -- np.delete(st, np.s_[p : p + dim**2])
   else some st
 
+/-! ## `generate_from_var` (qoperation.py:604, mprocess.py:526): `self.flag if requested is None else requested` -/
+
+/-- the parametrisation flag used by `generate_from_var(var, on_para_eq_constraint=requested)` on a template object -/
+def resolveFlag (template : Bool) (requested : Option Bool) : Bool :=
+  match requested with
+  | none => template
+  | some b => b
+
 /-! ## gradients: `gradient[index] = 1` on zeros (IndexError when out of range; the variable index is ≥ 0) -/
 
 def natOf? (i : Int) (bound : Nat) : Option Nat :=
@@ -311,6 +319,10 @@ def handle (args : List String) : Option String :=
       | "gate" => some s!"{num_variables_qpt dim f}"
       | "mprocess" => some s!"{num_variables_qmpt dim m f}"
       | _ => none
+  | ["gen_flag", t, r] => do
+      let t ← parseBool? t
+      let r ← if r = "n" then some none else (parseBool? r).map some
+      some (if resolveFlag t r then "1" else "0")
   -- state
   | ["s_v2o", f, s, var] => do
       let f ← parseBool? f; let s ← parseRat? s; let var ← parseList? parseRat? var
